@@ -465,6 +465,25 @@ def rule_metadata_roundtrip(ctx, R):
     IMGM = "darsia.image.image"
     ctx.consult(IMGM)
     d = 2
+    # the pixel data pass through the constructor unchanged: derived images are built as type(x)(array, **x.metadata()), so a constructor
+    # that clips / rescales / rounds the array it is given changes the result of every resampling, reduction and correction
+    VAL = {"np.clip", "np.maximum", "np.minimum", "np.abs", "np.absolute", "np.nan_to_num", "np.round", "np.around", "np.floor", "np.ceil", "darsia.convert_dtype",
+           "skimage.img_as_float", "skimage.img_as_float32", "skimage.img_as_float64", "skimage.img_as_ubyte", "skimage.img_as_uint"}
+    for cname in ("Image", "ScalarImage", "OpticalImage"):
+        init_ = m.method(m.cls(IMGM, cname), "__init__")
+        if init_ is None or init_.cls.name != cname or len(init_.params) < 2:
+            continue
+        pimg = init_.params[1]
+        for st in ast.walk(init_.node):
+            if isinstance(st, ast.Assign) and any(isinstance(t, ast.Name) and t.id == pimg for t in st.targets):
+                v = st.value
+                changing = (isinstance(v, ast.Call) and (norm(v.func) in VAL or (isinstance(v.func, ast.Attribute) and v.func.attr in ("clip", "round"))) and any(isinstance(x, ast.Name) and x.id == pimg for x in ast.walk(v))) \
+                    or (isinstance(v, ast.BinOp) and any(isinstance(x, ast.Name) and x.id == pimg for x in ast.walk(v)))
+                if changing:
+                    ctx.instance(R)
+                    ctx.ob(R, init_.qname, f"{cname}: the constructor stores the array it is given", False,
+                           f"`{norm(st)[:90]}` changes the pixel values before they are stored: images rebuilt from an array and the metadata (resized, reduced, corrected, superposed "
+                           "ones) do not carry the data that was computed for them", st, evidence=True)
     for cname in ("Image", "ScalarImage", "OpticalImage"):
         k = m.cls(IMGM, cname)
         init, meta = m.method(k, "__init__"), m.method(k, "metadata")
